@@ -133,8 +133,8 @@ RenderStrLit(s, q) == <<q>> \o FlattenSeq([i \in 1..Len(s) |-> EscChar(s[i], q)]
 
 \* number literal: integers in decimal; floats as <m>e<e>  (valid: number = int [frac] [exp])
 RenderNum(v) ==
-  IF ~v.f /\ v.e >= 0 THEN (IF v.m = 0 THEN <<48>> ELSE RenderInt(v.m) \o [i \in 1..v.e |-> 48])      \* digits then e zeros (no 32-bit overflow)
-  ELSE RenderInt(v.m) \o <<101>> \o RenderInt(v.e)
+  IF ~v.f /\ v.e >= 0 THEN (IF v.m = 0 THEN <<48>> ELSE RenderInt(v.m) \o v.s \o [i \in 1..v.e |-> 48])      \* digits then e zeros (no 32-bit overflow)
+  ELSE RenderInt(v.m) \o v.s \o <<101>> \o RenderInt(v.e)                                                     \* v.s: the extra mantissa digits of JNumX
 
 RenderLit(v) ==
   CASE v.t = "null" -> <<110,117,108,108>>
